@@ -135,7 +135,7 @@ def run(tier, seed):
     rep.evaluations += len(obs_cases)
 
     corr_fail, obs_fail, model_fail = [], [], []
-    if proof['ok']:
+    if proof['ok'] or proof['extra_ok']:
         corr_fail = common.run_cases(PID, 'corr', PRE, corr_cases, 'corr_ok')
         obs_fail = common.run_cases(PID, 'obs', PRE, obs_cases, 'obs_ok', shard=2500)
         model_fail = common.run_cases(PID, 'mobs', PRE, obs_cases, 'obs_model_ok', shard=2500)
